@@ -250,16 +250,164 @@ def lookalike_known(res):
                               {"kind": "text", "input": inp, "expected_text": want, "observed": got})
 
 
+# ---------------------------------------------------------------- the trim tie (Model/Trim.v)
+T_WS = [" ", "  ", "\n", "\t", "\n   ", " \r\n ", "\u00a0"]
+T_WORDS = ["x", "sin", "12", "3.5", "if and only if", "a b", "\u03b1", "A&B", "1<2", "d\u00e9j\u00e0", "--", "y\u00a0z"]
+T_LEAVES = ["mi", "mn", "mo", "mtext", "ms", "mspace", "none", "annotation", "ci"]
+T_ROWS = ["mrow", "mfrac", "msqrt", "msup", "mtable", "mtr", "mtd", "mstyle", "semantics", "mprescripts", "foo"]
+T_HTML = ["b", "span", "i", "font"]
+
+
+def t_doc(rng, depth):
+    """a document tree: ('T', text) | ('C',) | ('P',) | ('E', name, alt, kids); texts never adjacent, never empty"""
+    def leaf_kids(d):
+        kids = []
+        for _ in range(rng.choice([0, 1, 1, 2, 3, 4])):
+            r = rng.random()
+            if r < 0.5:
+                t = rng.choice(T_WS + [""]) + rng.choice(T_WORDS) + rng.choice(T_WS + ["", ""]) if rng.random() < 0.85 else rng.choice(T_WS[:6])
+                if kids and kids[-1][0] == "T":
+                    kids.append(("C",))
+                kids.append(("T", t))
+            elif r < 0.7:
+                kids.append(("C",))
+            elif r < 0.78:
+                kids.append(("P",))
+            elif r < 0.88:
+                kids.append(("E", "mglyph", rng.choice([None, "G", "alt text", ""]), []))
+            elif d > 0:
+                kids.append(("E", rng.choice(T_HTML + ["mi"]), None, leaf_kids(d - 1)))
+        return kids
+    if depth <= 0 or rng.random() < 0.45:
+        return ("E", rng.choice(T_LEAVES), None, leaf_kids(2))
+    kids = []
+    for _ in range(rng.randint(0, 4)):
+        r = rng.random()
+        if r < 0.6:
+            kids.append(t_doc(rng, depth - 1))
+        elif r < 0.75:
+            if not (kids and kids[-1][0] == "T"):
+                kids.append(("T", rng.choice(T_WS[:6] + ["junk", " stray text "])))
+        elif r < 0.9:
+            kids.append(("C",))
+        else:
+            kids.append(("P",))
+    return ("E", rng.choice(T_ROWS), None, kids)
+
+
+def t_xml(t):
+    if t[0] == "T":
+        return t[1].replace("&", "&amp;").replace("<", "&lt;").replace("\r", "&#13;")
+    if t[0] == "C":
+        return "<!-- a <b> c -->"
+    if t[0] == "P":
+        return "<?pi x y?>"
+    _, g, alt, kids = t
+    a = "" if alt is None else " alt='%s'" % alt
+    return "<%s%s>%s</%s>" % (g, a, "".join(t_xml(k) for k in kids), g)
+
+
+def t_coq(t):
+    if t[0] == "T":
+        return "XText %s" % cstr(t[1])
+    if t[0] == "C":
+        return "XComment"
+    if t[0] == "P":
+        return "XPI"
+    _, g, alt, kids = t
+    return "XEl %s %s [%s]" % (cstr(g), "None" if alt is None else "(Some %s)" % cstr(alt), "; ".join(t_coq(k) for k in kids))
+
+
+def t_observed(xml):
+    """the tree the library returns for the stage 'trim', in the model's vocabulary (no comments survive; a text is the
+    content of an element without element children)"""
+    import xml.etree.ElementTree as ET
+    def conv(e):
+        kids = [conv(k) for k in e]
+        if not kids and e.text is not None and e.text != "":
+            kids = [("T", e.text)]
+        return ("E", e.tag.split("}")[-1], e.get("alt"), kids)
+    return conv(ET.fromstring(xml))
+
+
+def trim_observations(res):
+    tier = res.tier if res else "quick"
+    rng = random.Random((res.seed if res else 1) * 7349 + 17)
+    hand = ["<math><mn>1<!-- c -->2</mn></math>", "<math><mi>s<!-- c -->in</mi><mo>&#x2061;</mo><mi>x</mi></math>", "<math><mtext>if <!-- a -->and only<?p q?> if</mtext></math>",
+            "<math><mi><!--c--></mi><mi></mi><mi> </mi></math>", "<math><mi> a <b>b  c</b><!--k-->\n d<mglyph alt='G g'/> </mi></math>",
+            "<math><mrow>junk<mi>x</mi>more<!--c--><?pi y?></mrow></math>", "<math><mspace>x</mspace><none><!--c--></none><mn><!--lead-->7</mn></math>",
+            "<math>\n  <mrow>\n    <mi>x</mi>\n    <mo>+</mo>\n  </mrow>\n</math>", "<math><mtext>a&#xA0;b &#xA0; c</mtext></math>"]
+    docs = [("E", "math", None, [t_doc(rng, 3) for _ in range(rng.randint(1, 3))]) for _ in range(300 if tier == "quick" else 3000)]
+    xmls = hand + [t_xml(d) for d in docs]
+    import xml.etree.ElementTree as ET
+
+    def parse_in(x):
+        def conv(e):
+            kids = []
+            if e.text:
+                kids.append(("T", e.text))
+            for k in e:
+                if k.tag is ET.Comment:
+                    kids.append(("C",))
+                elif k.tag is ET.ProcessingInstruction:
+                    kids.append(("P",))
+                else:
+                    kids.append(conv(k))
+                if k.tail:
+                    kids.append(("T", k.tail))
+            return ("E", e.tag, e.get("alt"), kids)
+        return conv(ET.fromstring(x, parser=ET.XMLParser(target=ET.TreeBuilder(insert_comments=True, insert_pis=True))))
+    trees = [parse_in(x) for x in hand] + docs
+    sessions = [{"id": i, "ops": [["set_rules_dir", C.RULES]] + [["v_canon_stage", x, "trim"] for x in xmls[i::16]]} for i in range(16)]
+    out = C.run_harness(sessions)
+    obs, skipped = [], 0
+    for i, r in enumerate(out):
+        rr = r.get("res", [])[1:]
+        for x, t, o in zip(xmls[i::16], trees[i::16], rr):
+            if "ok" in o:
+                try:
+                    obs.append((x, t, t_observed(o["ok"])))
+                except Exception:
+                    skipped += 1
+            else:
+                skipped += 1
+    body = HEADER + "From MC Require Import Model.Trim.\nDefinition trim_obs : list (xnode * xnode) := " + \
+        clist(("(%s, %s)" % (t_coq(t), t_coq(o)) for _, t, o in obs), per_line=1) + ".\n"
+    C.write_if_changed(os.path.join(C.GEN, "TrimObs.v"), body)
+    if res is not None:
+        res.extra["trim_tie_cases"] = len(obs)
+        res.extra["trim_tie_skipped"] = skipped
+        res.extra["trim_tie_with_comment_inside_token"] = sum(1 for x, _, _ in obs if re.search(r"<(m[ion]|mtext)>[^<]+<!--", x))
+    return obs
+
+
 def run(res):
-    res.rule = ("tie: every entity name + adversarial + seeded random strings through set_mathml vs the Coq model (kernel-checked); "
+    res.rule = ("trim tie: hand-written and 300 (3000) seeded documents with comments, processing instructions, blanks of every kind, stray text between elements, "
+                "embedded HTML and mglyph inside tokens, through the library's trim stage (hook) against Model/Trim.v; "
+                "tie: every entity name + adversarial + seeded random strings through set_mathml vs the Coq model (kernel-checked); "
                 "oracle: named vs numeric spelling per entity name, and 10 surface rewritings (prefix, xmlns, whitespace, comments/PIs, "
                 "prolog, MathJax v2/v3 classes, quoting, decimal refs, raw characters) of fixed + seeded textbook expressions, "
                 "comparing canonical MathML (ids renamed), speech and braille; non-trivial = variant differs textually from the plain form")
     rng = random.Random(res.seed * 104729 + 3)
     ents, ref, rx, obs, skipped = generate(res)
+    tobs = trim_observations(res)
 
     def on_broken(log):
         n = 0
+        m = re.search(r"=\s*\(40040004,\s*\[([^\]]*)\]\)", log)
+        if m:
+            # the trim tie: a document the library trims differently from the model; is a spelling that must not matter involved?
+            for xx in [int(v.replace("%N", "")) for v in m.group(1).replace("\n", " ").split(";") if v.strip()][:20]:
+                if xx < len(tobs):
+                    x = tobs[xx][0]
+                    plain = re.sub(r"<!--.*?-->|<\?.*?\?>", "", x, flags=re.S)
+                    a, b = (C.one_session([["set_mathml", v]])["res"][0] for v in (x, plain))
+                    if C.norm_ids_deep(a) != C.norm_ids_deep(b):
+                        res.violation("the same expression with and without comments / processing instructions gives different results: %s" % x[:300],
+                                      {"kind": "pair", "a": x, "b": plain, "result_a": a, "result_b": b})
+                        n += 1
+                        if n >= 3:
+                            break
         idx = C.parse_coq_nlist(log) if "Tie/C17Tie" in log else None
         if idx:
             for i in idx[:3]:
@@ -279,7 +427,7 @@ def run(res):
                 n += 1
                 break
         return n > 0
-    proved = C.check_proofs(res, "C17", ["Props/C17.vo", "Tie/C17Tie.vo"], "Props/C17.v", search=on_broken)
+    proved = C.check_proofs(res, "C17", ["Props/C17.vo", "Tie/C17Tie.vo", "Tie/TrimTie.vo"], "Props/C17.v", search=on_broken)
     if proved:
         entity_oracle(res, ents, ref)
         surface_oracle(res, rng)
@@ -289,7 +437,8 @@ def run(res):
     res.trusted += ["python html.entities.html5 as the entity reference",
                     "sxd_document XML parser (character-reference decoding is modelled only to state what a replacement text means)",
                     "regex crate: leftmost non-overlapping match semantics of `&([CLASS]+?);` (model tied by Tie/C17Tie.v)"]
-    res.assumptions += ["prefix/namespace/MathJax/whitespace/comment invariance is exercised on the library (oracle run), not proved"]
+    res.assumptions += ["comment / processing-instruction / inter-element text invariance is proved for the trim model (tied); prefix, namespace, MathJax class and quoting "
+                        "invariance are exercised on the library (oracle run), not proved"]
 
 
 def replay(path):
